@@ -1,9 +1,251 @@
-import CkbVerif.Model.Indexer
+import CkbVerif.Lemmas.IndexerAppend
+import CkbVerif.Lemmas.IndexerScan
 
+/-!
+# C18 — the indexer's answers equal filtering the chain's live cells and transactions
+
+Model: `CkbVerif.Model.Indexer` (follows `util/indexer/src/indexer.rs` / `service.rs`).
+
+Proved here (all unbounded: any store, any block, any script):
+
+* `tip_follows` — after `append` (commit + the automatic prune) of a block whose number exceeds
+  every indexed header number, the tip is that block.
+* `prune_preserves_answers`, `append_answers_eq_core` — `prune` never changes a row that carries an
+  answer (OutPoint, Cell*Script, Tx*Script rows): the retention only limits rollback.
+* `append_keeps_history` — appending block `n` never changes a transaction-history row or a
+  ConsumedOutPoint (undo-log) row of another block number.
+* `scan_exact`, `exact_search_cells` — the iteration behind every query returns exactly the rows
+  whose key starts with the search prefix, and in exact mode exactly the rows of the searched script.
+* `prefix_search_overmatch_witness` — in prefix mode the code returns a cell whose script does NOT
+  start with the searched script (query args `01 00` vs. cell args `01`): the negation of the naive
+  prefix specification; replayed on the real code (corpus/C18/finding-prefix-search-overmatch).
+* `answers_eq_filter_partial`, `rollback_append_partial` — the two main statements, proved ONLY for
+  one concrete two-block chain with a same-block spend (kernel evaluation), i.e. as sanity instances.
+
+NOT proved in general (tested by the correspondence harness against an independent replay oracle):
+
+  theorem answers_eq_filter : ∀ blocks (well-formed chain), ∀ k, k.isAnswer →
+      get (blocks.foldl (append keep interval) []) k = rowsOfReplay blocks k
+  theorem rollback_append : ∀ s b (b well-formed for s: inputs live in s or created earlier in b,
+      fresh tx ids, fresh header), (∀ k, k.isAnswer → get (rollback (appendCore s b)) k = get s k)
+      ∧ tip (rollback (appendCore s b)) = tip s
+
+Missing for both: the refinement "reads from the pre-batch store + in-block fallback lookup ==
+sequential (write-through) semantics" for same-block spends, and the per-transaction inverse lemma.
+-/
 namespace CkbVerif.C18
-open CkbVerif.Indexer
+open CkbVerif.Indexer CkbVerif.Gen.Indexer
 
-theorem get_put_same (s : Store) (k : Key) (v : Val) : get (put s k v) k = some v := by
-  simp [put, Indexer.get]
+/-! ## tip -/
+
+theorem appendCore_eq (s : Store) (b : Block) :
+    ∃ f l, appendCore s b =
+      (Key.header b.number b.hash f, Val.txs l) ::
+        del (commit s (b.txs.zipIdx.flatMap fun (tx, i) => txOps s b i tx)) (Key.header b.number b.hash f) := by
+  obtain ⟨f, l, h⟩ := headerOp_eq s b
+  refine ⟨f, l, ?_⟩
+  unfold appendCore appendOps
+  rw [commit_append, h]
+  rfl
+
+theorem hdrBelow_txs (s : Store) (b : Block) (k : Key) (hb : HdrBelow s b.number) :
+    HdrBelow (del (commit s (b.txs.zipIdx.flatMap fun (tx, i) => txOps s b i tx)) k) b.number := by
+  intro e he bn h f hk
+  have he1 := (List.mem_filter.mp he).1
+  rcases mem_commit _ _ _ he1 with h1 | h1
+  · exact hb e h1 bn h f hk
+  · have := txsOps_ok s b _ h1
+    simp [BOp.key, hk, appendKeyOk] at this
+
+theorem tip_appendCore (s : Store) (b : Block) (hb : HdrBelow s b.number) :
+    tip (appendCore s b) = some (b.number, b.hash) := by
+  obtain ⟨f, l, h⟩ := appendCore_eq s b
+  rw [h]
+  exact tip_cons_header _ _ _ _ _ (hdrBelow_txs s b _ hb)
+
+/-- `prune` keeps the first row when it is the tip header, and only removes rows -/
+theorem tip_prune_cons (bn h : Nat) (f : Bool) (l) (rest : Store) (keep : Nat)
+    (hb : HdrBelow rest bn) :
+    tip (prune ((Key.header bn h f, Val.txs l) :: rest) keep) = some (bn, h) := by
+  have htip := tip_cons_header bn h f l rest hb
+  unfold prune
+  have hd := pruneOps_dels ((Key.header bn h f, Val.txs l) :: rest) keep
+  rw [commit_dels_cons]
+  · apply tip_cons_header
+    intro e he bn' h' f' hk
+    have : e ∈ rest := mem_commit_dels _ _ _ (fun o ho => by
+      obtain ⟨k, hk, _⟩ := hd o ho; exact ⟨k, hk⟩) he
+    exact hb e this bn' h' f' hk
+  · intro o ho
+    obtain ⟨k, hk, _, hh⟩ := hd o ho
+    refine ⟨k, hk, ?_⟩
+    intro heq
+    obtain ⟨n, hh', ht, hle, _⟩ := hh bn h f heq
+    rw [htip] at ht
+    cases ht
+    omega
+
+/-- **tip_follows**: appending a block above every indexed header makes it the tip (whether or not
+the automatic prune runs). -/
+theorem tip_follows (keep interval : Nat) (s : Store) (b : Block) (hb : HdrBelow s b.number) :
+    tip (append keep interval s b) = some (b.number, b.hash) := by
+  unfold append
+  dsimp only
+  split
+  · obtain ⟨f, l, h⟩ := appendCore_eq s b
+    rw [h]
+    exact tip_prune_cons _ _ _ _ _ _ (hdrBelow_txs s b _ hb)
+  · exact tip_appendCore s b hb
+
+/-- decidable form of `HdrBelow` (for the examples) -/
+def hdrBelowB (s : Store) (n : Nat) : Bool :=
+  s.all fun e => match e.1 with | .header bn _ _ => decide (bn < n) | _ => true
+
+theorem hdrBelow_of_B (s : Store) (n : Nat) (h : hdrBelowB s n = true) : HdrBelow s n := by
+  intro e he bn hh f hk
+  have := List.all_eq_true.mp h e he
+  rw [hk] at this
+  simpa using this
+
+/-- the hypothesis is satisfiable by a non-trivial state, and the conclusion computes -/
+example :
+    let s0 : Store := append 1 1 [] ⟨0, 10, [⟨1, [⟨0, 4294967295⟩], [⟨100, ⟨1, [1]⟩, none, []⟩]⟩]⟩
+    HdrBelow s0 1 ∧
+      tip (append 1 1 s0 ⟨1, 11, [⟨2, [⟨0, 4294967295⟩], []⟩, ⟨3, [⟨1, 0⟩], [⟨100, ⟨1, [1, 2]⟩, none, []⟩]⟩]⟩) = some (1, 11) :=
+  ⟨hdrBelow_of_B _ _ (by decide), by decide⟩
+
+/-! ## prune and the answers -/
+
+/-- **prune_preserves_answers**: no OutPoint / Cell*Script / Tx*Script row is changed by `prune`. -/
+theorem prune_preserves_answers (s : Store) (keep : Nat) (k : Key) (hk : k.isAnswer = true) :
+    get (prune s keep) k = get s k := by
+  unfold prune
+  apply get_commit_untouched
+  intro o ho
+  obtain ⟨k', hk', ha, _⟩ := pruneOps_dels s keep o ho
+  subst hk'
+  intro heq
+  simp only [BOp.key] at heq
+  rw [heq] at ha
+  rw [ha] at hk
+  cases hk
+
+/-- so the automatic prune inside `append` is invisible to every query -/
+theorem append_answers_eq_core (keep interval : Nat) (s : Store) (b : Block) (k : Key)
+    (hk : k.isAnswer = true) : get (append keep interval s b) k = get (appendCore s b) k := by
+  unfold append
+  dsimp only
+  split
+  · exact prune_preserves_answers _ _ _ hk
+  · rfl
+
+/-! ## history is append-only -/
+
+/-- **append_keeps_history**: appending block `b` leaves every transaction-history row of another
+block number exactly as it was. -/
+theorem append_keeps_history (s : Store) (b : Block) (k : Key)
+    (hk : (∃ sc bn tx io t, k = .txLock sc bn tx io t ∧ bn ≠ b.number) ∨
+          (∃ sc bn tx io t, k = .txType sc bn tx io t ∧ bn ≠ b.number) ∨
+          (∃ bn op, k = .consumed bn op ∧ bn ≠ b.number)) :
+    get (appendCore s b) k = get s k := by
+  unfold appendCore appendOps
+  apply get_commit_untouched
+  intro o ho heq
+  rw [List.mem_append] at ho
+  rcases ho with ho | ho
+  · have hok := txsOps_ok s b o ho
+    rw [heq] at hok
+    rcases hk with ⟨sc, bn, tx, io, t, rfl, hne⟩ | ⟨sc, bn, tx, io, t, rfl, hne⟩ | ⟨bn, op, rfl, hne⟩ <;>
+      simp [appendKeyOk] at hok <;> exact hne hok
+  · simp only [List.mem_singleton] at ho
+    obtain ⟨f, l, h⟩ := headerOp_eq s b
+    rw [ho, h] at heq
+    simp only [BOp.key] at heq
+    rcases hk with ⟨sc, bn, tx, io, t, rfl, _⟩ | ⟨sc, bn, tx, io, t, rfl, _⟩ | ⟨bn, op, rfl, _⟩ <;> cases heq
+
+example : ∃ (s : Store) (b : Block) (k : Key), get s k ≠ none ∧
+    (∃ sc bn tx io t, k = Key.txLock sc bn tx io t ∧ bn ≠ b.number) :=
+  ⟨[(Key.txLock ⟨1, []⟩ 0 0 0 .output, Val.tx 1)], ⟨1, 1, []⟩, Key.txLock ⟨1, []⟩ 0 0 0 .output,
+    by decide, ⟨_, _, _, _, _, rfl, by decide⟩⟩
+
+/-! ## the scan behind the queries -/
+
+/-- every query iterates exactly the rows whose key starts with the search prefix -/
+theorem scan_exact (s : Store) (pre : List Nat) (e : Key × Val) :
+    e ∈ scan s pre ↔ e ∈ s ∧ isPrefix pre e.1.bytes = true := mem_scan s pre e
+
+/-- **exact mode**: a CellLockScript row passes the prefix scan and the key-length test of
+`get_cells` / `get_cells_capacity` iff it is a stored row of exactly the searched script. -/
+theorem exact_search_cells (s : Store) (q sc : Script) (bn tx io : Nat) (v : Val) :
+    ((Key.cellLock sc bn tx io, v) ∈ scan s (cellPrefix true q) ∧
+      (Key.cellLock sc bn tx io).bytes.length = (cellPrefix true q).length + 16) ↔
+    ((Key.cellLock sc bn tx io, v) ∈ s ∧ sc = q) := by
+  rw [mem_scan]
+  have h := exact_cellLock q sc bn tx io
+  simp only [cellPrefix, if_true] at *
+  constructor
+  · rintro ⟨⟨hs, hp⟩, hl⟩
+    exact ⟨hs, h.mp ⟨hp, hl⟩⟩
+  · rintro ⟨hs, he⟩
+    obtain ⟨hp, hl⟩ := h.mpr he
+    exact ⟨⟨hs, hp⟩, hl⟩
+
+example : ((Key.cellLock ⟨1, [1]⟩ 0 0 0, Val.tx 1) ∈
+    scan (appendCore [] ⟨0, 1, [⟨1, [⟨0, 4294967295⟩], [⟨100, ⟨1, [1]⟩, none, []⟩]⟩]⟩) (cellPrefix true ⟨1, [1]⟩)) := by
+  decide
+
+/-- **prefix mode over-matches** (the code as written, also on the real indexer): a live cell with
+lock args `01`, searched with lock args `01 00` in prefix mode, is returned although its script does
+not start with the searched script — the query's tail runs into the big-endian block number. -/
+theorem prefix_search_overmatch_witness :
+    ∃ (s : Store) (q : Script) (op : OutPoint) (c : Cell),
+      get s (.outPoint op) = some (.cell c) ∧
+      op ∈ liveCellsByScript s KP_CELL_LOCK_SCRIPT q ∧
+      isPrefix (scriptRaw q) (scriptRaw c.out.lock) = false :=
+  ⟨appendCore [] ⟨0, 1, [⟨1, [⟨0, 4294967295⟩], [⟨100, ⟨1, [1]⟩, none, []⟩]⟩]⟩, ⟨1, [1, 0]⟩, ⟨1, 0⟩,
+    ⟨0, 0, ⟨100, ⟨1, [1]⟩, none, []⟩⟩, by decide, by decide, by decide⟩
+
+/-! ## the two main statements on a concrete chain (sanity instances only) -/
+
+def exBlock0 : Block :=
+  ⟨0, 10, [⟨1, [⟨0, 4294967295⟩], [⟨1000, ⟨1, [1]⟩, none, []⟩]⟩]⟩
+
+/-- cellbase; tx 3 spends 1.0 and creates two cells; tx 4 spends 3.0 (same block); tx 5 spends 4.0, 3.1 -/
+def exBlock1 : Block :=
+  ⟨1, 11, [⟨2, [⟨0, 4294967295⟩], []⟩,
+           ⟨3, [⟨1, 0⟩], [⟨100, ⟨1, [1]⟩, some ⟨2, [5]⟩, [7]⟩, ⟨250, ⟨1, [1, 2]⟩, none, [7, 8]⟩]⟩,
+           ⟨4, [⟨3, 0⟩], [⟨50, ⟨1, [1]⟩, none, []⟩]⟩,
+           ⟨5, [⟨4, 0⟩, ⟨3, 1⟩], [⟨1, ⟨2, [5]⟩, some ⟨1, [1]⟩, [9]⟩]⟩]⟩
+
+def answerRows (s : Store) : List (Key × Val) := s.filter fun e => e.1.isAnswer
+
+/-- same rows as sets (both directions, through `get`) -/
+def sameAnswers (a b : Store) : Bool :=
+  ((answerRows a).all fun e => get b e.1 = some e.2) && ((answerRows b).all fun e => get a e.1 = some e.2)
+
+/-- `answers_eq_filter` on the concrete chain exBlock0, exBlock1: the answer rows are exactly the
+live cell 5.0 (created, not spent) with its lock/type index rows and the nine history rows.
+PARTIAL: one instance; the general statement is in the header comment. -/
+theorem answers_eq_filter_partial :
+    sameAnswers (appendCore (appendCore [] exBlock0) exBlock1)
+      [ (.outPoint ⟨5, 0⟩, .cell ⟨1, 3, ⟨1, ⟨2, [5]⟩, some ⟨1, [1]⟩, [9]⟩⟩),
+        (.cellLock ⟨2, [5]⟩ 1 3 0, .tx 5), (.cellType ⟨1, [1]⟩ 1 3 0, .tx 5),
+        (.txLock ⟨1, [1]⟩ 0 0 0 .output, .tx 1), (.txLock ⟨1, [1]⟩ 1 1 0 .input, .tx 3),
+        (.txLock ⟨1, [1]⟩ 1 1 0 .output, .tx 3), (.txType ⟨2, [5]⟩ 1 1 0 .output, .tx 3),
+        (.txLock ⟨1, [1, 2]⟩ 1 1 1 .output, .tx 3),
+        (.txLock ⟨1, [1]⟩ 1 2 0 .input, .tx 4), (.txType ⟨2, [5]⟩ 1 2 0 .input, .tx 4),
+        (.txLock ⟨1, [1]⟩ 1 2 0 .output, .tx 4),
+        (.txLock ⟨1, [1]⟩ 1 3 0 .input, .tx 5), (.txLock ⟨1, [1, 2]⟩ 1 3 1 .input, .tx 5),
+        (.txLock ⟨2, [5]⟩ 1 3 0 .output, .tx 5), (.txType ⟨1, [1]⟩ 1 3 0 .output, .tx 5) ] = true := by
+  decide +kernel
+
+/-- `rollback_append` on the same chain: rolling back exBlock1 restores every answer row and the
+tip of the state before it was appended (ConsumedOutPoint residue stays behind).
+PARTIAL: one instance; the general statement is in the header comment. -/
+theorem rollback_append_partial :
+    sameAnswers (rollback (appendCore (appendCore [] exBlock0) exBlock1)) (appendCore [] exBlock0) = true ∧
+    tip (rollback (appendCore (appendCore [] exBlock0) exBlock1)) = tip (appendCore [] exBlock0) ∧
+    get (rollback (appendCore (appendCore [] exBlock0) exBlock1)) (.consumed 1 ⟨3, 0⟩) ≠ none := by
+  decide +kernel
 
 end CkbVerif.C18
